@@ -232,3 +232,72 @@ mutant('C04', 'supersize works on the stored vectors', SYS, "        vects = sel
 mutant('C04', 'normalize flip mirrors atoms', NRM, "origin=system.box.origin + system.box.cvect)", "origin=system.box.origin + system.box.cvect, scale=True)", 'NORMALIZE')
 benign('C04', 'p-table via identity', MIL, "    lattice_vectors['p'] = np.array([[  1.0,  0.0,  0.0],\n                                     [  0.0,  1.0,  0.0],\n                                     [  0.0,  0.0,  1.0]])\n    \n    lattice_vectors['a'] = np.array([[  1.0,  0.0,  0.0],\n                                     [  0.0,  0.5,  0.5],", "    lattice_vectors['p'] = np.identity(3)\n    \n    lattice_vectors['a'] = np.array([[  1.0,  0.0,  0.0],\n                                     [  0.0,  0.5,  0.5],")
 benign('C04', 'supersize reciprocal multipliers', SYS, 'np.array([1 / mults[0], 1 / mults[1], 1 / mults[2]])', '(1 / mults)')
+
+# ------------------------------------------------------------------ C07
+AD = 'atomman/dump/atom_data/dump.py'
+APIF = 'atomman/dump/atom_data/atoms_prop_info.py'
+VPIF = 'atomman/dump/atom_data/velocities_prop_info.py'
+DD = 'atomman/dump/atom_dump/dump.py'
+DPI = 'atomman/dump/atom_dump/process_prop_info.py'
+TD = 'atomman/dump/table/dump.py'
+TPI = 'atomman/dump/table/process_prop_info.py'
+PD = 'atomman/dump/poscar/dump.py'
+mutant('C07', 'regress hybrid units (atoms)', APIF, "subprop_info = atoms_prop_info(substyle, units)", "subprop_info = atoms_prop_info(substyle)", 'PROP-TABLE')
+mutant('C07', 'regress hybrid units (velocities)', VPIF, "prop_info = velocities_prop_info('atomic', units)", "prop_info = velocities_prop_info('atomic')", 'PROP-TABLE')
+mutant('C07', 'regress-F4 snippet units None', AD, "read_info = info_content(system, f, atom_style=atom_style, units=units)", "read_info = info_content(system, f, atom_style=None, units=None)", 'DATA-FILE')
+mutant('C07', 'charge style q after xyz', APIF, """                     {"prop_name": "charge",
+                      "table_name": "q",
+                      "unit": lammps_unit['charge']},
+                     
+                     {"prop_name": "pos",
+                      "table_name": ["x", "y", "z"], 
+                      "unit": lammps_unit['length']}]
+    
+    elif atom_style == 'dipole':""", """                     {"prop_name": "pos",
+                      "table_name": ["x", "y", "z"], 
+                      "unit": lammps_unit['length']},
+                     {"prop_name": "charge",
+                      "table_name": "q",
+                      "unit": lammps_unit['charge']}]
+    
+    elif atom_style == 'dipole':""", 'PROP-TABLE')
+mutant('C07', 'sphere diameter without unit', APIF, """                     {"prop_name": "diameter",
+                      "table_name": "diameter",
+                      "unit": lammps_unit['length']},""", """                     {"prop_name": "diameter",
+                      "table_name": "diameter"},""", 'PROP-TABLE')
+mutant('C07', 'dipole mu in charge units', APIF, "\"unit\": lammps_unit['dipole']}]", "\"unit\": lammps_unit['charge']}]", 'PROP-TABLE')
+mutant('C07', 'sphere velocities: angular momentum instead of angular velocity unit', VPIF, "\"unit\": lammps_unit['ang-vel']}]", "\"unit\": lammps_unit['ang-mom']}]", 'PROP-TABLE')
+mutant('C07', 'wrap without image flags', AD, "imageflags = system.wrap(return_imageflags=True)", "imageflags = np.zeros((system.natoms, 3), dtype=int)\n    system.wrap()", 'DATA-FILE')
+mutant('C07', 'box bounds in wrong unit', AD, "xhi = uc.get_in_units(system.box.xhi, length_unit)", "xhi = system.box.xhi", 'DATA-FILE')
+mutant('C07', 'ylo yhi swapped', AD, "content += xf2 % (ylo, yhi) +' ylo yhi\\n'", "content += xf2 % (yhi, ylo) +' ylo yhi\\n'", 'DATA-FILE')
+mutant('C07', 'tilt line only when xy nonzero', AD, "if xy != 0.0 or xz != 0.0 or yz != 0.0:", "if xy != 0.0:", 'DATA-FILE')
+mutant('C07', 'tilt order xy yz xz', AD, "content += xf3 % (xy, xz, yz) + ' xy xz yz\\n'", "content += xf3 % (xy, yz, xz) + ' xy xz yz\\n'", 'DATA-FILE')
+mutant('C07', 'image flag columns b,c swapped', AD, "extra['imageflag_b'] = imageflags[:,1]\n        extra['imageflag_c'] = imageflags[:,2]", "extra['imageflag_b'] = imageflags[:,2]\n        extra['imageflag_c'] = imageflags[:,1]", 'DATA-FILE')
+mutant('C07', 'float_format not forwarded to atoms table', AD, "content += dump_table(system, prop_info=prop_info, float_format=float_format, extra=extra)", "content += dump_table(system, prop_info=prop_info, extra=extra)", 'DATA-FILE')
+mutant('C07', 'natypes written from system when given', AD, "content += '%i atom types\\n' % natypes", "content += '%i atom types\\n' % system.natypes", 'DATA-FILE')
+mutant('C07', 'boundary flags: p for non-periodic', AD, "bflags[system.pbc] = 'p'", "bflags[np.logical_not(system.pbc)] = 'p'", 'DATA-FILE')
+mutant('C07', 'velocity table uses default units', AD, "        prop_info = velocities_prop_info(atom_style, units)\n        \n        content += dump_table(system, prop_info=prop_info, float_format=float_format)\n    \n    returns = []", "        prop_info = velocities_prop_info(atom_style)\n        \n        content += dump_table(system, prop_info=prop_info, float_format=float_format)\n    \n    returns = []", 'DATA-FILE')
+mutant('C07', 'dump bounds: xlo_bound ignores xy+xz', DD, "xlo_bound = xlo + min((0.0, xy, xz, xy + xz))", "xlo_bound = xlo + min((0.0, xy, xz))", 'DUMP-FILE')
+mutant('C07', 'dump bounds: yhi uses xz', DD, "yhi_bound = yhi + max((0.0, yz))", "yhi_bound = yhi + max((0.0, xz))", 'DUMP-FILE')
+mutant('C07', 'dump tilt columns xz/yz swapped', DD, "content += xf3 % (ylo_bound, yhi_bound, xz)\n        content += xf3 % (zlo_bound, zhi_bound, yz)", "content += xf3 % (ylo_bound, yhi_bound, yz)\n        content += xf3 % (zlo_bound, zhi_bound, xz)", 'DUMP-FILE')
+mutant('C07', 'dump pbc flags reversed order', DD, "        if system.pbc[i]:\n            content += ' pp'", "        if system.pbc[2-i]:\n            content += ' pp'", 'DUMP-FILE')
+mutant('C07', 'dump orthogonal test ignores yz', DD, "is_orthogonal = (xy == 0.0 and xz == 0.0 and yz == 0.0)", "is_orthogonal = (xy == 0.0 and xz == 0.0)", 'DUMP-FILE')
+mutant('C07', 'dump natoms header off', DD, "content += '%i\\n' % (system.natoms)", "content += '%i\\n' % (system.natoms - 1)", 'DUMP-FILE')
+mutant('C07', 'table: conversion multiplies', TD, "df[pname + istr] = uc.get_in_units(df[pname + istr], prop['unit'])", "df[pname + istr] = uc.set_in_units(df[pname + istr], prop['unit'])", 'TABLE')
+mutant('C07', 'table: scaled columns not scaled', TD, "df = system.atoms_df(scale)", "df = system.atoms_df()", 'TABLE')
+mutant('C07', 'table: ids start at 0', TD, "df['a_id'] = range(1, natoms+1)", "df['a_id'] = range(natoms)", 'TABLE')
+mutant('C07', 'table: column order by frame not request', TD, "df = df.rename(columns=key_rename)[list(key_rename.values())]", "df = df.rename(columns=key_rename)[sorted(key_rename.values())]", 'TABLE')
+mutant('C07', 'table_dump: own ids overwritten', DD, "    if 'atom_id' not in df:\n        df['atom_id'] = range(1, natoms+1)", "    df['atom_id'] = range(1, natoms+1)", 'TABLE')
+mutant('C07', 'table_dump: float_format dropped', DD, "return df.to_csv(path_or_buf=f, sep=sep, index=None, header=False,\n                     float_format=float_format, lineterminator='\\n')", "return df.to_csv(path_or_buf=f, sep=sep, index=None, header=False,\n                     lineterminator='\\n')", 'TABLE')
+mutant('C07', 'resolver: default shape from table names off', TPI, "                prop['shape'] = (numtnames, )", "                prop['shape'] = (numtnames - 1, )", 'RESOLVER')
+mutant('C07', 'standard: force column in energy units', DPI, "\"unit\": lammps_unit['force']}", "\"unit\": lammps_unit['energy']}", 'RESOLVER')
+mutant('C07', 'regress-F6 poscar cartesian not scaled', PD, "    if scale is False:\n        pos = pos / box_scale\n", "", 'POSCAR')
+mutant('C07', 'poscar lattice multiplied by scale', PD, "vects = system.box.vects / box_scale", "vects = system.box.vects * box_scale", 'POSCAR')
+mutant('C07', 'poscar counts skip last type', PD, "for i in range(1, int(uatype.max()+1)):", "for i in range(1, int(uatype.max())):", 'POSCAR')
+mutant('C07', 'poscar positions not grouped by type', PD, "    for a in range(1, system.natypes+1):\n        for p in pos[atype==a]:\n            poscar_string += '\\n'+ threexf % tuple(p)", "    for p in pos:\n        poscar_string += '\\n'+ threexf % tuple(p)", 'POSCAR')
+mutant('C07', 'poscar k not recognised as cartesian', PD, "if coordstyle[0] in 'cCkK':", "if coordstyle[0] in 'cC':", 'POSCAR')
+benign('C07', 'box line via f-string label', AD, "content += xf2 % (xlo, xhi) +' xlo xhi\\n'", "content += xf2 % (xlo, xhi) + ' xlo' + ' xhi\\n'")
+benign('C07', 'dump bounds via two-arg min', DD, "ylo_bound = ylo + min((0.0, yz))", "ylo_bound = ylo + min(0.0, yz)")
+benign('C07', 'dump x bounds as sum of minima', DD, "xlo_bound = xlo + min((0.0, xy, xz, xy + xz))", "xlo_bound = xlo + min(0.0, xy) + min(0.0, xz)")
+benign('C07', 'tilt test as any', AD, "if xy != 0.0 or xz != 0.0 or yz != 0.0:", "if not (xy == 0.0 and xz == 0.0 and yz == 0.0):")
+benign('C07', 'poscar scale by reciprocal', PD, "pos = pos / box_scale", "pos = pos * (1 / box_scale)")
